@@ -23,7 +23,7 @@ def pcName : Pc → String
   | .sbWait _ _ => "sbWait" | .sbWaiting _ _ => "sbWaiting" | .sbDone _ _ => "sbDone" | .sbDropCv _ => "sbDropCv" | .sbPrune _ => "sbPrune"
   | .rjDequeue _ _ => "rjDequeue" | .rjPending _ _ _ => "rjPending" | .rjParkCheck _ _ _ => "rjParkCheck" | .rjPark _ _ _ => "rjPark" | .rjParked _ _ _ => "rjParked"
   | .jobStart _ _ _ _ => "jobStart" | .jobAwait _ _ _ _ => "jobAwait" | .jobBodyDone _ _ => "jobBodyDone" | .jobEnd _ _ => "jobEnd"
-  | .jobSignal _ _ => "jobSignal" | .jobDrop _ _ => "jobDrop" | .jobDropNotify _ _ => "jobDropNotify"
+  | .jobSignal _ _ => "jobSignal" | .jobSigDrop _ _ => "jobSigDrop" | .jobDrop _ _ => "jobDrop" | .jobDropNotify _ _ => "jobDropNotify"
   | .ptRecv _ => "ptRecv" | .ptRecvd _ => "ptRecvd" | .ptLockBusy _ => "ptLockBusy" | .ptLockSched _ => "ptLockSched" | .ptPop _ => "ptPop"
   | .ptUnlockSched _ _ => "ptUnlockSched" | .ptUnlockBusy _ _ => "ptUnlockBusy" | .pdDequeue _ _ => "pdDequeue" | .pdRequeue _ _ _ => "pdRequeue"
   | .pdPending _ _ => "pdPending" | .pdExit _ _ => "pdExit"
@@ -37,7 +37,7 @@ def allPcNames : List String :=
    "rqCs", "rqNotifyAcq", "rqNotify", "rqNotifyRel", "rqPush", "waking", "openSend", "wqCs", "wtCs", "wtUnpark", "lwCs", "dwCs", "dsPush", "dsSched",
    "syDecide", "tsDecide", "siIdle", "sdPush", "sdCheck", "sdIdle", "sbReg", "sbPush", "sbLockReady", "sbTest", "sbClaim", "sbClaimRel", "sbRelReady",
    "sbStealTest", "sbStealIdle", "sbWait", "sbWaiting", "sbDone", "sbDropCv", "sbPrune", "rjDequeue", "rjPending", "rjParkCheck", "rjPark", "rjParked",
-   "jobStart", "jobAwait", "jobBodyDone", "jobEnd", "jobSignal", "jobDrop", "jobDropNotify", "ptRecv", "ptRecvd", "ptLockBusy", "ptLockSched", "ptPop",
+   "jobStart", "jobAwait", "jobBodyDone", "jobEnd", "jobSignal", "jobSigDrop", "jobDrop", "jobDropNotify", "ptRecv", "ptRecvd", "ptLockBusy", "ptLockSched", "ptPop",
    "ptUnlockSched", "ptUnlockBusy", "pdDequeue", "pdRequeue", "pdPending", "pdExit", "pfPoll", "pfPollRel", "pfBlocked", "dqCheck", "dqDequeue",
    "dqRequeue", "dqCheck2", "dqSetWfw", "dqStore", "dqSetWfp", "dqWakeWith", "dqStore2", "dqIdle2", "dqIdle", "fsTake", "smSet", "dpRead", "dpPop", "dpJoin"]
 
@@ -232,6 +232,12 @@ def replayEvent (r : Replay) (ag : Nat) (ws : List String) : Except String Repla
     if (r.s.leafOf t).isNone && ["spawn", "joined"].contains kind then return r   -- the harness's own threads
     let some a := r.s.leafOf t | .error s!"thread {ag} has no live activity in the model"
     let r := runSilent r a 64
+    -- a pending future may be polled again although its waker has not fired
+    let r := match r.s.acts[a]? with
+      | some av => (match av.pc with
+        | .pfBlocked _ => (match spuriousPoll r.s a with | some s' => { r with s := s', hits := "spuriousPoll" :: r.hits } | none => r)
+        | _ => r)
+      | none => r
     if kind == "ret" then
       let id := parseNatD (args.getD 0 "")
       let some a' := lookupN r.callAct id | .error s!"ret of unknown call {id}"
@@ -319,9 +325,9 @@ def replayEvent (r : Replay) (ag : Nat) (ws : List String) : Except String Repla
         if threadModel r1 n == th then .ok r1 else fail "unparks a different thread"
       | "notify1", .notify1 w => bindName r1 "C" (args.getD 0 "") w
       | "notifyall", .notifyAll w => bindName r1 "C" (args.getD 0 "") w
-      | "taskwake", .taskWake b =>
+      | "taskwake", .taskWake th =>
         let n := parseNatD (dropFirst (args.getD 0 ""))
-        if r1.s.threadOf b == threadModel r1 n then .ok r1 else fail "wakes a different task"
+        if th == threadModel r1 n then .ok r1 else fail "wakes a different task"
       | "wakeup-dropped", .wakeupDropped => .ok r1
       | "gsend", .gateSend g => if parseNatD (args.getD 0 "") == g then .ok r1 else fail "different gate"
       | "beg", .beg op =>
